@@ -60,9 +60,9 @@ Print Assumptions trunc_prefix.
    RDATA per set, and every record set of a type/class for which MessageM.schema_of gives the reader's field
    list: A AAAA SRV KX PX DHCID NSAP NSAP-PTR WKS NAPTR (class IN); NS CNAME SOA PTR MX TXT RRSIG SPF NINFO AVC RESINFO WALLET AFSDB RT
    RP SSHFP TLSA SMIMEA CERT DNSKEY CDNSKEY OPENPGPKEY EUI48 EUI64 L32 L64 NID HINFO X25 NSEC3PARAM URI KEY DS DLV
-   CDS ZONEMD CAA CSYNC NSEC3 DNAME NSEC BRID HHIT (any class; the last six with their constructors' content checks, MessageM.chk); and
+   CDS ZONEMD CAA CSYNC NSEC3 DNAME NSEC BRID HHIT LP TKEY (any class; the last six with their constructors' content checks, MessageM.chk); and
    every type without a codec in dns/rdtypes (generic form).  Types with a codec outside that list
-   (AMTRELAY DSYNC GPOS HIP ISDN LOC LP SIG TKEY; APL HTTPS SVCB IPSECKEY in class IN; A in class CH) are outside
+   (AMTRELAY DSYNC GPOS HIP ISDN LOC SIG; APL HTTPS SVCB IPSECKEY in class IN; A in class CH) are outside
    the theorem; they are exercised by the
    oracle of the limit sweep only. *)
 Theorem trunc_parses : forall o pad m max_size request_payload w,
@@ -121,7 +121,7 @@ Print Assumptions toobig_exact.
 
 (* when padding is requested (and the message has an OPT record to carry it) the final length,
    TSIG included, is a multiple of the block size - for every message, origin, limit and key name
-   (the repaired code writes the TSIG owner uncompressed after padding; commit 5e0f3f6) *)
+   (the repaired code writes the TSIG owner uncompressed after padding; commit d2163b7) *)
 Theorem pad_multiple : forall m origin max_size request_payload prefer_truncation pad o w,
   0 < pad -> mopt m = Some o ->
   to_wire m origin max_size request_payload prefer_truncation pad = Ok w -> zlen w mod pad = 0.
